@@ -30,6 +30,7 @@ def rules(ctx):
     c104(ctx)
     c105(ctx)
     c106(ctx)
+    c107(ctx)
 
 
 BUILDERS = {
@@ -545,3 +546,184 @@ def c106(ctx):
                           "the divider takes timestamp 0 with the unshortened key: (lhs, 0) sorts after every version of lhs and can pass the next block's first key", pt=sp)
             else:
                 ctx.check(R, f, "divider-timestamp", False, "", "the divider's timestamp is neither 0 nor the left key's timestamp", pt=sp)
+
+
+def _true_edge(f, pt, callee_pat):
+    from .C06 import true_edge_guard
+    return true_edge_guard(f, pt, callee_pat)
+
+
+def _stores(f, l):
+    return [((b.idx, j), st) for b in f.blocks for j, st in enumerate(b.st) if st["s"] == "=" and not st["lhs"]["p"] and st["lhs"]["l"] == l]
+
+
+def _is_const(st, v):
+    rv = st["rv"]
+    return rv["r"] == "use" and rv["a"].get("k") == "const" and rv["a"]["c"].get("v") == v
+
+
+def c107(ctx):
+    """Prefix compression.  Writer and reader must rebuild a key the same way -- cut the previous key to `shared` bytes, then append
+    the fragment -- and a restart must store the key whole (shared = 0) and record the offset of the entry it precedes.  Each clause
+    below is a necessary condition of `the sealed block enumerates exactly the sequence put in`: breaking it changes the key some entry
+    decodes to, or the entry a restart offset designates."""
+    R = "C10.7"
+    ctx.declare(R, "prefix compression: shared length, fragment and restart offsets are produced and consumed consistently")
+    BB = "sst::block::BlockBuilder::"
+    SR = r"sst::block::BlockBuilder::should_restart$"
+    f = ctx.fn(R, BB + "compute_key_frag")
+    if f:
+        ctx.calls(R, f, SR)
+        pu = ctx.calls(R, f, r"alloc::vec::Vec::push$", arg_pred=K.recv_is_field("restarts"), what="restarts.push")
+        for pt in pu:
+            ctx.check(R, f, "restart-recorded-on-restart", bool(_true_edge(f, pt, SR)), "a restart offset is recorded only where should_restart() holds",
+                      "restarts.push is not confined to the restart branch", pt=pt)
+            lens = [c for c in P.origins(f, P.term_at(f, pt)["args"][1]) if c["k"] == "call" and c["callee"].endswith("Vec::len")]
+            ok = any("buffer" in K.arg_field_names(f, c["pt"], 0) for c in lens)
+            ctx.check(R, f, "restart-offset-is-buffer-len", ok, "the recorded restart offset is buffer.len(), the offset of the entry about to be appended",
+                      "the restart offset is not the current length of the entry buffer", pt=pt)
+        ret = [(b.idx, j) for b in f.blocks for j, st in enumerate(b.st) if st["s"] == "=" and st["lhs"]["l"] == 0 and not st["lhs"]["p"] and st["rv"]["r"] == "agg"]
+        ctx.floor(R, "compute_key_frag return tuple", len(ret), 1)
+        for rp in ret:
+            ops = f.blocks[rp[0]].st[rp[1]]["rv"]["ops"]
+            S = K.root_local(f, ops[0])
+            sts = _stores(f, S)
+            zero = [sp for sp, st in sts if _is_const(st, 0)]
+            other = [(sp, st) for sp, st in sts if not _is_const(st, 0)]
+            ctx.check(R, f, "restart-shares-nothing", zero and all(_true_edge(f, sp, SR) for sp in zero) and
+                      all(P.reach(f, P.after(f, pt), [sp]) is not None or P.reach(f, [sp], [pt]) is not None for pt in pu for sp in zero),
+                      "on a restart the shared length is 0 (the key is stored whole)", "the restart branch does not return shared = 0", pt=rp)
+            ctx.check(R, f, "shared-from-scan", len(other) >= 1 and not any(_true_edge(f, sp, SR) for sp, _st in other),
+                      "without a restart the shared length comes from the common-prefix scan", "cannot identify the common-prefix scan result", pt=rp)
+            bf = __import__("blue.bounds", fromlist=["BF"]).BF(ctx.prog, f)
+            for sp, st in other:
+                C = K.root_local(f, st["rv"].get("a")) if st["rv"]["r"] == "use" else None
+                incs = []
+                for cp, cst in (_stores(f, C) if C is not None else []):
+                    srcs = P.origins(f, cst["rv"].get("a"), through_calls=False) if cst["rv"]["r"] == "use" else []
+                    if any(s_["k"] == "bin" and s_["st"]["rv"]["op"] in ("Add", "AddWithOverflow", "AddUnchecked") for s_ in srcs):
+                        incs.append(cp)
+                inits = [cp for cp, cst in (_stores(f, C) if C is not None else []) if _is_const(cst, 0)]
+                ctx.check(R, f, "scan-counter", C is not None and len(incs) == 1 and len(inits) == 1, "the scan counts from 0 in steps of one",
+                          "cannot identify the common-prefix counter", pt=sp)
+                for ip in incs:
+                    bounded = eq = False
+                    for fa in bf.dominating_facts(ip):
+                        a, rel, b = fa[0], fa[1], fa[2]
+                        if rel == "<" and a == ("pl", C, ()) and b[0] == "min" and {b[1], b[2]} == {("len", ("pl", 1, ("last_key",))), ("len", ("pl", 2, ()))}:
+                            bounded = True
+                    for bb, lab, srcs in K.guards(f, ip):
+                        for s_ in srcs:
+                            if s_["k"] == "bin" and s_["op"] == "Eq" and lab == "sw:1":
+                                sides = []
+                                for o in (s_["st"]["rv"]["a"], s_["st"]["rv"]["b"]):
+                                    names = set()
+                                    idx = None
+                                    for q in P.origins(f, o):
+                                        if q["k"] == "call" and q["callee"].endswith("Index>::index"):
+                                            names |= set(K.arg_field_names(f, q["pt"], 0))
+                                            idx = K.root_local(f, q["t"]["args"][1])
+                                        if q["k"] == "param" and q["i"] == 2:
+                                            names.add("param:key")
+                                    if "param:key" in names and idx is None:
+                                        # direct `key[i]`: the index is in the place projection
+                                        d = [x for x in _stores(f, o["pl"]["l"])] if o.get("pl") else []
+                                        for _dp, dst in d:
+                                            pr = dst["rv"].get("a", {}).get("pl", {}).get("p", []) if dst["rv"]["r"] == "use" else []
+                                            for e in pr:
+                                                if isinstance(e, dict) and "ix" in e:
+                                                    idx = K.root_local(f, {"k": "copy", "pl": {"l": e["ix"], "p": []}})
+                                    sides.append((frozenset(names), idx))
+                                if {n for ns, _i in sides for n in ns} >= {"param:key", "last_key"} and all(i == C for _n, i in sides):
+                                    eq = True
+                    ctx.check(R, f, "scan-bounded", bounded, "the counter advances only while it is below min(last_key.len(), key.len())",
+                              "the common-prefix scan is not bounded by both key lengths", pt=ip)
+                    ctx.check(R, f, "scan-compares-same-position", eq, "the counter advances only past a position where key and last_key hold the same byte",
+                              "the common-prefix scan does not compare key[i] with last_key[i] at the counter's position", pt=ip)
+            # the fragment is key[shared..] for the same shared
+            good = False
+            for src in P.origins(f, ops[1], through_calls=False):
+                if src["k"] == "call" and src["callee"].endswith("index"):
+                    base = P.origins(f, src["t"]["args"][0], through_calls=False)
+                    for r_ in P.origins(f, src["t"]["args"][1], through_calls=False):
+                        if r_["k"] == "agg" and r_.get("adt", "").endswith("RangeFrom") and K.root_local(f, r_["st"]["rv"]["ops"][0]) == S and \
+                                any(q["k"] == "param" and q["i"] == 2 for q in base):
+                            good = True
+            ctx.check(R, f, "fragment-is-rest", good, "the fragment is key[shared..] for the shared length returned with it",
+                      "the returned fragment is not key[shared..] of the returned shared length", pt=rp)
+    # writer and reader rebuild the key the same way
+    for key, who, recv in ((BB + "append", "writer", "last_key"), ("sst::block::BlockCursor::extract_key", "reader", None)):
+        g = ctx.fn(R, key)
+        if not g:
+            continue
+        tr = ctx.calls(R, g, r"alloc::vec::Vec::truncate$")
+        ex = ctx.calls(R, g, r"alloc::vec::Vec::extend_from_slice$")
+        ctx.order_chain(R, g, [("truncate(shared)", tr), ("extend_from_slice(key_frag)", ex)])
+        for pt in tr:
+            ctx.check(R, g, "truncate-to-shared", any(c.endswith("KeyValueEntry::shared") for c in K.arg_calls(g, pt, 1)),
+                      "the %s cuts the previous key to the entry's shared length" % who, "truncate is not given the entry's shared length", pt=pt)
+        for pt in ex:
+            ctx.check(R, g, "extend-with-fragment", any(c.endswith("KeyValueEntry::key_frag") for c in K.arg_calls(g, pt, 1)),
+                      "the %s appends the entry's key fragment" % who, "extend_from_slice is not given the entry's key fragment", pt=pt)
+        bases = {K.ref_base(g, P.term_at(g, pt)["args"][0]) for pt in tr + ex}
+        flds = set()
+        for pt in tr + ex:
+            flds |= set(K.arg_field_names(g, pt, 0))
+        same = (recv in flds and len(flds) == 1) if recv else (len(bases) == 1 and None not in bases)
+        ctx.check(R, g, "same-key-buffer", same, "both operations act on the same key buffer", "truncate and extend act on different buffers")
+        ents = set()
+        for pt in tr + ex:
+            for c in P.origins(g, P.term_at(g, pt)["args"][1]):
+                if c["k"] == "call" and re.search(r"KeyValueEntry::(shared|key_frag)$", c["callee"]):
+                    ents.add(K.ref_base(g, c["t"]["args"][0]))
+        ctx.check(R, g, "same-entry", len(ents) == 1 and None not in ents, "shared length and fragment are read from the same entry",
+                  "shared length and fragment come from different entries")
+    # put / del wire compute_key_frag's pair into the entry they append
+    for m, adt in (("put", "sst::KeyValuePut"), ("del", "sst::KeyValueDel")):
+        g = ctx.fn(R, "<sst::block::BlockBuilder as sst::Builder>::" + m)
+        if not g:
+            continue
+        ck = ctx.calls(R, g, BB + "compute_key_frag$")
+        ap = ctx.calls(R, g, BB + "append$")
+        ctx.order_chain(R, g, [("compute_key_frag", ck), ("append", ap)])
+        for pt in ck:
+            ctx.check(R, g, "frag-of-key", any(q["k"] == "param" and q["i"] == 2 for q in P.origins(g, P.term_at(g, pt)["args"][1], through_calls=False)),
+                      "compute_key_frag is given the key being added", "compute_key_frag is not given the key parameter", pt=pt)
+        aggs = [((b.idx, j), st) for b in g.blocks for j, st in enumerate(b.st)
+                if st["s"] == "=" and st["rv"]["r"] == "agg" and strip_generics(st["rv"].get("adt", "")) == adt]
+        ctx.floor(R, "%s aggregate in %s" % (adt, m), len(aggs), 1)
+        for sp, st in aggs:
+            flds = dict(zip(st["rv"].get("fields", ()), st["rv"]["ops"]))
+            want = {"shared": "0", "key_frag": "1"}
+            for fld, ix in want.items():
+                ok = False
+                for q in P.origins(g, flds.get(fld)):
+                    if q["k"] == "call" and q["callee"].endswith("compute_key_frag"):
+                        ok = True
+                proj_ok = _tuple_field_of(g, flds.get(fld), ix)
+                ctx.check(R, g, "entry-" + fld, ok and proj_ok, "%s.%s is compute_key_frag's .%s" % (adt.rsplit("::", 1)[-1], fld, ix),
+                          "%s.%s is not element %s of compute_key_frag's result" % (adt.rsplit("::", 1)[-1], fld, ix), pt=sp)
+            ctx.check(R, g, "entry-timestamp", any(q["k"] == "param" and q["i"] == 3 for q in P.origins(g, flds.get("timestamp"), through_calls=False)),
+                      "the entry carries the timestamp given", "the entry's timestamp is not the timestamp parameter", pt=sp)
+            if "value" in flds:
+                ctx.check(R, g, "entry-value", any(q["k"] == "param" and q["i"] == 4 for q in P.origins(g, flds.get("value"), through_calls=False)),
+                          "the entry carries the value given", "the entry's value is not the value parameter", pt=sp)
+
+
+def _tuple_field_of(f, op, ix):
+    """op is (a cast / copy of) field `ix` of a tuple-typed local."""
+    seen = set()
+    while op is not None and op.get("k") in ("copy", "move"):
+        pl = op["pl"]
+        fes = [e for e in pl["p"] if isinstance(e, dict) and "f" in e]
+        if fes:
+            return fes[-1]["f"] == ix and fes[-1].get("of") == "()"
+        if pl["l"] in seen:
+            return False
+        seen.add(pl["l"])
+        ds = _stores(f, pl["l"])
+        if len(ds) != 1 or ds[0][1]["rv"]["r"] not in ("use", "cast", "ref"):
+            return False
+        rv = ds[0][1]["rv"]
+        op = rv.get("a") if rv["r"] != "ref" else {"k": "copy", "pl": rv["pl"]}
+    return False
